@@ -170,19 +170,25 @@ RECURSIVE Acc(_, _, _)
 Acc(len, p, k) == IF k = 0 THEN 0 ELSE Acc(len, p, k - 1) + len[p[k]]       \* accumulated length of p[1..k]
 Idx(R) == 1..Len(R)
 (* lengths are in units of sqrt(U) (U = 1: plain integers): Acc * sqrt(U) >= range  <=>  Acc^2 * U >= range^2    *)
-RoutesClause(G, len, start, range, R, U) ==
-  IF \E i \in Idx(R) : Len(R[i]) = 0 \/ R[i][1] \notin G[start]
+(* D: the direct successors of the lanelet the search is CALLED ON (its own current list); G: the network's links, *)
+(* used for every continuation.  The caller need not be the network's object of that id (a copy edited later, a   *)
+(* foreign lanelet with a colliding id, a merged lanelet): the statement speaks of "a direct successor" of the     *)
+(* lanelet and of covering "every direct successor".  sameLanelet = FALSE (foreign lanelet whose id merely         *)
+(* collides with a network lanelet): the statement does not say whether that network lanelet may be visited.       *)
+RoutesFrom(G, D, len, start, range, R, U, sameLanelet) ==
+  IF \E i \in Idx(R) : Len(R[i]) = 0 \/ R[i][1] \notin D
     THEN "first"                                   \* a path does not start at a direct successor
   ELSE IF \E i \in Idx(R) : \E k \in 1..Len(R[i]) - 1 : R[i][k] \notin DOMAIN G \/ R[i][k + 1] \notin G[R[i][k]]
     THEN "chain"                                   \* a path is not a chain of successor links
-  ELSE IF \E i \in Idx(R) : \E k \in 1..Len(R[i]) : R[i][k] = start
+  ELSE IF sameLanelet /\ \E i \in Idx(R) : \E k \in 1..Len(R[i]) : R[i][k] = start
     THEN "start"                                   \* a path revisits the start lanelet
   ELSE IF \E i \in Idx(R) : \E j, k \in 1..Len(R[i]) : j < k /\ R[i][j] = R[i][k]
     THEN "loop"                                    \* a path is not loop-free
   ELSE IF \E i \in Idx(R) : \E k \in 1..Len(R[i]) - 1 : Acc(len, R[i], k) * Acc(len, R[i], k) * U >= range * range
     THEN "range"                                   \* a path was extended although its length had reached the range
-  ELSE IF \E s \in G[start] : \A i \in Idx(R) : R[i][1] # s
+  ELSE IF \E s \in D : \A i \in Idx(R) : R[i][1] # s
     THEN "cover"                                   \* a direct successor starts no path
   ELSE ""
+RoutesClause(G, len, start, range, R, U) == RoutesFrom(G, G[start], len, start, range, R, U, TRUE)
 ValidRoutes(G, len, start, range, R, U) == RoutesClause(G, len, start, range, R, U) = ""
 =================================================================================
